@@ -1369,3 +1369,122 @@ func (x *c02ctx) r2x19() {
 		r.Pass("R02.19", "package/result-locations-allocated-per-execution", "", fmt.Sprintf("%d generators allocate reflect values when the closure is generated; none of those values is written or handed out as a result location by a run-time closure", nFn))
 	}
 }
+
+// r2x20 (R02.20): round-7 seed. The left operand of an operation assigned to a variable
+// (a*b in v = a*b + c) was computed in the location of the variable: v = a*b + v computed with
+// a clobbered v.
+func (x *c02ctx) r2x20() {
+	ic, r := x.ic, x.r
+	info := ic.Info
+	cfgFn := ic.fn(r, "Interpreter.cfg")
+	if cfgFn == nil {
+		return
+	}
+	ancFld := ic.field("node", "anc")
+	findexFld := ic.field("node", "findex")
+	var cc *ast.CaseClause
+	ast.Inspect(cfgFn.Decl.Body, func(q ast.Node) bool {
+		c, ok := q.(*ast.CaseClause)
+		if !ok {
+			return true
+		}
+		for _, l := range kindLabels(ic, c) {
+			if l == "binaryExpr" && len(callsIn(info, c, true, "interp.typecheck.binaryExpr")) > 0 {
+				cc = c
+			}
+		}
+		return true
+	})
+	if cc == nil {
+		r.Errorf("R02.20: the binaryExpr case of cfg was not found")
+		return
+	}
+	// two levels up: .anc applied to something that already went through .anc
+	twoUp := func(body ast.Node) string {
+		viaAnc := map[types.Object]bool{}
+		found := ""
+		for pass := 0; pass < 2; pass++ {
+			ast.Inspect(body, func(q ast.Node) bool {
+				switch y := q.(type) {
+				case *ast.AssignStmt:
+					if len(y.Lhs) == len(y.Rhs) {
+						for i, rh := range y.Rhs {
+							if selField(info, rh) == ancFld {
+								if id := identOf(y.Lhs[i]); id != nil {
+									viaAnc[info.ObjectOf(id)] = true
+								}
+							}
+						}
+					}
+				case *ast.SelectorExpr:
+					if selField(info, y) == ancFld {
+						if selField(info, y.X) == ancFld {
+							found = types.ExprString(y) + " at " + ic.pos(y.Pos())
+						}
+						if id := identOf(y.X); id != nil && viaAnc[info.ObjectOf(id)] {
+							found = types.ExprString(y) + " at " + ic.pos(y.Pos())
+						}
+					}
+				}
+				return true
+			})
+		}
+		return found
+	}
+	n := 0
+	ast.Inspect(cc, func(q ast.Node) bool {
+		as, ok := q.(*ast.AssignStmt)
+		if !ok || len(as.Lhs) != 1 || len(as.Rhs) != 1 || selField(info, as.Lhs[0]) != findexFld {
+			return true
+		}
+		// only the node's own location (n.findex), not the children's
+		if id := identOf(unparen(as.Lhs[0]).(*ast.SelectorExpr).X); id == nil || id.Name != "n" {
+			return true
+		}
+		n++
+		rh := unparen(as.Rhs[0])
+		why := ""
+		switch y := rh.(type) {
+		case *ast.CallExpr:
+			// sc.add(...) or childPos(n)
+		case *ast.SelectorExpr:
+			if selField(info, y) == findexFld {
+				// dest.findex: where does dest come from?
+				if id := identOf(y.X); id != nil {
+					obj := info.ObjectOf(id)
+					ast.Inspect(cc, func(z ast.Node) bool {
+						a2, ok := z.(*ast.AssignStmt)
+						if !ok || len(a2.Lhs) != len(a2.Rhs) {
+							return true
+						}
+						for i, l := range a2.Lhs {
+							if lid := identOf(l); lid != nil && info.ObjectOf(lid) == obj {
+								if w := twoUp(a2.Rhs[i]); w != "" {
+									why = "its source reads two levels up (" + w + ")"
+								}
+								if c, ok := unparen(a2.Rhs[i]).(*ast.CallExpr); ok {
+									if h, ok := calleeOf(info, c).(*types.Func); ok && h.Pkg() == ic.Pk.Types {
+										if hd := ic.G.Funcs[h]; hd != nil && hd.Decl.Body != nil {
+											if w := twoUp(hd.Decl.Body); w != "" {
+												why = "the helper " + h.Name() + " that chooses it looks two levels up (" + w + ")"
+											}
+										}
+									}
+								}
+							}
+						}
+						return true
+					})
+				} else if w := twoUp(y); w != "" {
+					why = "it reads two levels up (" + w + ")"
+				}
+			}
+		}
+		r.Check(why == "", "R02.20", fmt.Sprintf("cfg/case:binaryExpr/result-location#%d/own-or-direct-parent", n), ic.pos(as.Pos()), "the location comes from sc.add, a return position or the node's direct parent",
+			"the binaryExpr case of cfg gives the result of an operation the location "+types.ExprString(as.Rhs[0])+": "+why+". The operation is then computed in the variable assigned by a statement that merely contains it, before the rest of the right-hand side is evaluated: v = a*b + v computes a*b into v and then adds the clobbered v")
+		return true
+	})
+	if n < 2 {
+		r.Errorf("R02.20: only %d assignments of the node's frame location found in the binaryExpr case of cfg", n)
+	}
+}
